@@ -116,6 +116,9 @@ def sites_in(func_node, btext, offs):
                 add("DEL", n, "pass", "delete `%s`" % _u(n)[:70])
         elif isinstance(n, (ast.Assign, ast.AugAssign, ast.Delete)):
             add("DEL", n, "pass", "delete `%s`" % _u(n)[:70])
+            if isinstance(n, ast.AugAssign) and isinstance(n.op, (ast.Add, ast.Sub)):
+                # an accumulator overwritten instead of accumulated
+                add("AUG2ASG", n, "%s = %s" % (_u(n.target), _u(n.value)), "overwrite instead of accumulate `%s`" % _u(n)[:60])
         elif isinstance(n, ast.AnnAssign) and n.value is not None:
             add("DEL", n, "pass", "delete `%s`" % _u(n)[:70])
         elif isinstance(n, ast.Return) and n.value is not None and not (
